@@ -983,7 +983,12 @@ def _c03_child_case(rng, i, kinds):
 
 PARENT_FORMS = ['x, y', 'x, [map(yy)] y', '[parent(u, v)] inner: Inner, w', '[parent([parent(vendor, year)] core: Core)] base: Base, id',
                 '[parent(u)] inner, w', '[parent([parent(vendor)] core: Core)] base, id', 'x, [parent(y)] 0: T', '[map(a0)] 0, [map(a1)] 1',
-                'x, [parent(u, [parent(z)] deep: Deep)] inner: Inner']
+                'x, [parent(u, [parent(z)] deep: Deep)] inner: Inner',
+                # several nested groups side by side at one level (each keeps its own sub-path), also below a nested group
+                '[parent(load)] front: Axle, seats, [parent(psi)] rear: Tyre',
+                '[parent(a)] u: U, [parent(b)] v: V, [parent(cc)] w: W',
+                '[parent([parent(a)] u: U, [parent(b, [map(dd)] d)] v: V)] w: W, tail',
+                'head, [parent(p1)] one: One, [parent([parent(q)] in2: In2)] two: Two']
 
 
 def parse_parent_form(text):
@@ -1269,6 +1274,17 @@ def c05_variant_item(forms):
         attrs += [trait_attr('map', cp), trait_attr('try_map', cp, '', 'Er')]
     v = Variant('V', 'named', [Field('x', 'i32', fa), Field('y', 'i16')])
     return Item('enum', 'E', 'named', '', attrs, [v, Variant('U')], {'gen': 'c05v', 'forms': forms, 'shape': 'variant'})
+
+
+NESTED_MAP_NAMES = ['owned_into', 'ref_into', 'into', 'from_owned', 'from_ref', 'from', 'map_owned', 'map_ref', 'map',
+                    'owned_into_existing', 'ref_into_existing', 'into_existing']
+
+
+def c05_pcf_item(names):
+    """the same chain one level down: several `[instr(member, expr)]` on one member listed in a parameterised #[parent(..)]"""
+    inner = ' '.join('[%s(m%d, e%d(~))]' % (nm, i + 1, i + 1) for i, nm in enumerate(names))
+    fields = [Field('par', 'P', [Attr('parent', '%s x, y' % inner)]), Field('b', 'i16', [])]
+    return Item('struct', 'S', 'named', '', c05_trait_attrs(), fields, {'gen': 'c05p', 'forms': list(names), 'shape': 'pcf'})
 
 
 # ---------------------------------------------------------------------------------------------
@@ -1889,6 +1905,22 @@ def c15_injectors():
         it.attrs.append(Attr('child_parents', 'p: P'))
         return it, r"Missing 'p\.q: \[Type Path\]' instruction for type"
 
+    @add(8)
+    def child_path_only_in_shadowed_child_parents(it, rng):
+        """the counterpart has a dedicated #[child_parents(T| ..)]; the path is listed only in the default instruction, which the
+        dedicated one shadows for T (expansion looks the path up in the dedicated one)"""
+        fs = [m for m in it.members if isinstance(m, Field)]
+        into = _has_kind(it, INTOK)
+        if not fs or not into or it.shape != 'named' or any(a.name == 'child_parents' for a in it.attrs if isinstance(a, Attr)):
+            return None
+        cp = rng.choice(into).cp
+        rng.choice(fs).attrs.append(Attr('child', 'p.q', ded=cp if rng.random() < 0.5 else None))
+        pair = [Attr('child_parents', 'p: P, p.q: Q'), Attr('child_parents', 'p: P', ded=cp)]
+        if rng.random() < 0.5:
+            pair.reverse()
+        it.attrs += pair
+        return it, r"Missing 'p\.q: \[Type Path\]' instruction for type"
+
     @add(9)
     def tuple_to_named_without_names(it, rng):
         if it.kind != 'struct' or it.shape != 'tuple':
@@ -2149,6 +2181,15 @@ def c07_cases(rng, n):
                     fa.append(gattr('ghost', default=rng.choice(['0', 'd()'])))
                 elif r < 0.7:
                     fa.append(astype_attr('i64', member=member if rng.random() < 0.5 else None))
+                elif r < 0.8 and named:
+                    # a default and a dedicated instruction of one family side by side (either order): every flavour - the
+                    # into_existing ones through their fallback to the into instructions - must pick the dedicated one
+                    fam = rng.choice(['into', 'map', 'into', 'from'])      # families that treat the owned and the by-reference flavour alike
+                    pair = [mattr(fam, member=('p%d' % j) if dnamed else None, expr='da(~)'),
+                            mattr(fam, member=('q%d' % j) if dnamed else None, expr='db(~)', ded='A')]
+                    if rng.random() < 0.6:
+                        pair.reverse()
+                    fa += pair
                 elif not named and dnamed:
                     fa.append(mattr('map', member=member))
                 if not named and dnamed and not fa:
@@ -2279,18 +2320,22 @@ def c08_cases(rng, n):
             kw = {'update': '..', 'return': 'return ', 'default': '_ => '}[spec['tail'][0]]
             braced = rng.random() < 0.5 and spec['tail'][0] != 'default'
             ps.append(kw + (('{ %s }' % spec['tail'][1]) if braced else spec['tail'][1]))
-        attrs = [trait_attr(nm, 'A', '', 'Er', ', '.join(ps))]
-        if rng.random() < 0.3:
+        # `return` replaces the whole body: shapes whose member-by-member rendering would need more instructions than the input has
+        # (validation deliberately accepts them under `return`) must expand to the expression all the same
+        bare_shape = spec['tail'] is not None and spec['tail'][0] == 'return' and rng.random() < 0.3
+        attrs = [trait_attr(nm, 'A', ' as {}' if (bare_shape and not enum) else '', 'Er', ', '.join(ps))]
+        if rng.random() < 0.3 and not bare_shape:
             attrs.append(trait_attr(rng.choice([x for x in names if not (set(kinds_of(x)) & set(kinds_of(nm)))] or [nm]), 'B', '', 'Er'))
             if attrs[-1].name == nm:
                 attrs.pop()
         rng.shuffle(attrs)
         if enum:
-            vs = [Variant('V', 'unit', [], [Attr('ghost', '{ dv() }')] if rng.random() < 0.4 else []), Variant('W', 'tuple', [Field(None, 'i32')]),
+            vs = [Variant('V', 'unit', [], [Attr('ghost', '{ dv() }')] if rng.random() < 0.4 else []),
+                  Variant('W', 'tuple', [Field(None, 'i32')], [Attr('type_hint', 'as {}')] if bare_shape else []),
                   Variant('X', 'named', [Field('p', 'i32', [Attr('map', 'q')])])]
             it = Item('enum', 'E', 'named', '', attrs, vs)
         else:
-            named = rng.random() < 0.7
+            named = rng.random() < 0.7 and not bare_shape
             use_k = spec['vars'] and rng.random() < 0.6
             fields = [Field('a' if named else None, 'i32', [Attr('map', '~ + k0')] if use_k else []), Field('b' if named else None, 'i16', [Attr('map', 'bb')] if named and rng.random() < 0.5 else [])]
             if rng.random() < 0.2:
@@ -2375,6 +2420,11 @@ def c02_cases(rng, n):
                         member = ('k%d' % q) if r2 < 0.5 else None
                     if force_no_member:
                         member = None
+                    if sh == 'tuple' and named_dst and nfl > 1 and rng.random() < 0.2:
+                        # a ghost payload field among renamed ones: the bindings of the fields after it keep their own positions
+                        fa.append(gattr('ghost', default='0'))
+                        fs.append(Field(None, 'i32', fa))
+                        continue
                     if member is not None and r2 < 0.3:
                         fa.append(mattr('map', member=member, expr=rng.choice(['~ + 1', '~.clone()', 'h(~)'])))
                     elif member is not None:
